@@ -82,7 +82,7 @@ def cfg_brushes(tier):
 
 def cfg_disps(tier):
     return GenConfig(displacements=True, disp_weight=0.8, prism_weight=0.2, max_disp_power=2 if tier == 'quick' else 4, meta=False, membership=False,
-                     max_ents=1, max_keys=1, max_outputs=0, max_fixups=0, max_world_solids=2, max_ent_solids=1, max_sides=3,
+                     max_ents=1, max_keys=1, max_outputs=0, max_fixups=0, min_world_solids=1, max_world_solids=2, max_ent_solids=1, max_sides=3,
                      nasty=0.1, world_extras=False, nodeid=False)
 
 
